@@ -583,6 +583,23 @@ for _t in ['attributes', 'attributes nlri', 'attributes next-hop 1.2.3.4 nlri', 
     JUNK.append(('attributes', 'missing-value', _t))
 
 
+# the family of a prefix is the one it is written in: one `attributes … nlri` command with prefixes of both families,
+# a prefix of the other family under `announce ipv4 unicast` / `announce ipv6 unicast` (API commands)
+for _t in ['attributes next-hop 1.2.3.4 med 5 nlri 10.0.0.0/24 2001:db8::/32', 'attributes next-hop 1.2.3.4 med 5 nlri 2001:db8::/32 10.0.0.0/24', 'attributes next-hop 2001:db8::1 nlri 10.0.0.0/24 2001:db8::/32',
+           'attributes next-hop 1.2.3.4 nlri 10.0.0.0/24 10.0.1.0/24', 'attributes next-hop 2001:db8::1 nlri 2001:db8:1::/48 2001:db8:2::/48']:
+    JUNK.append(('attributes', 'families', _t))
+for _k, _t in [('v4', 'ipv4 unicast 10.0.0.0/24 next-hop 1.2.3.4'), ('v4', 'ipv4 unicast 2001:db8::/32 next-hop 1.2.3.4'), ('v4', 'ipv4 unicast 2001:db8::/32 next-hop 2001:db8::1'), ('v4', 'ipv4 multicast 2001:db8::/32 next-hop 1.2.3.4'),
+               ('v6', 'ipv6 unicast 2001:db8::/32 next-hop 2001:db8::1'), ('v6', 'ipv6 unicast 10.0.0.0/24 next-hop 2001:db8::1'), ('v6', 'ipv6 unicast 10.0.0.0/24 next-hop 1.2.3.4'),
+               ('v4', 'ipv4 unicast 10.0.0.0/33 next-hop 1.2.3.4'), ('v6', 'ipv6 unicast 2001:db8::/129 next-hop 2001:db8::1'), ('v4', 'ipv4 unicast'), ('v4', 'ipv4 unicast 10.0.0.0/24'), ('v6', 'ipv6 bogus 2001:db8::/32 next-hop ::1')]:
+    JUNK.append((_k, 'families', _t))
+# every name the extended-community grammar knows, with too few / enough / too many fields
+for _n in ['target', 'origin', 'redirect', 'l2info', 'redirect-to-nexthop', 'bandwidth', 'mup', 'target4', 'origin4', 'target-asn4', 'origin-asn4']:
+    for _f in ['', ':1', ':1:2', ':1:2:3', ':1:2:3:4', ':1:2:3:4:5', ':1.2.3.4:5', ':70000:5', ':1:70000']:
+        JUNK.append(('route', 'extended-community-name', f'route 10.0.0.0/24 next-hop 1.2.3.4 extended-community [ {_n}{_f} ]'))
+for _h in ['0x', '0x00', '0x0002', '0x000200010000', '0x00020001000000', '0x0002000100000002', '0x000200010000000299', '0x00020001000000020002000100000003', '0xzz02000100000002', '0X0002000100000002']:
+    JUNK.append(('route', 'extended-community-hex', f'route 10.0.0.0/24 next-hop 1.2.3.4 extended-community [ {_h} ]'))
+
+
 # bgp-prefix-sid is left to the junk stream: its parser loops on an unclosed bracket and every hang costs a watchdog timeout;
 # split too: `route ::/0 split /25` is 33 554 432 routes, which is slow by design and not a parser fault
 VOCAB_KW = ['med', 'local-preference', 'community', 'large-community', 'extended-community', 'as-path', 'label', 'rd', 'path-information', 'aggregator', 'originator-id', 'cluster-list', 'aigp', 'origin', 'attribute', 'atomic-aggregate', 'withdraw', 'name', 'watchdog']
@@ -657,7 +674,9 @@ def culprit(kind: str, text: str) -> str:
 
 def junk_outcome(rig: fr.Rig, kind: str, text: str) -> tuple[str, str]:
     """('ok'|'refused'|<fault>, detail) over every entry point and, when accepted, every session shape."""
-    out = run_entries(rig, kind, text, ('text', 'api', 'handler'))
+    out = run_entries(rig, kind, text, ('text', 'api', 'handler') + (('file',) if kind in ('route', 'attributes', 'flow', 'flow6', 'vpls') else ()))
+    if 'file' in out:
+        out['file'] = out['file'][0]  # (outcome, what the error says): the outcome
     for name, o in out.items():
         if name == 'handler':
             if o[0] == 'hangs':
@@ -672,8 +691,71 @@ def junk_outcome(rig: fr.Rig, kind: str, text: str) -> tuple[str, str]:
         if o.status == 'raised':
             return 'raises', f'{name}: {o.detail}'
     routes = accepted_routes(out)
-    if routes is None:
+    # what a configuration file holding the definition is accepted with is accepted too, whatever the API says of
+    # the same text (parse_route_text, the `text` entry, is not an entry point of its own: it leaves what the
+    # neighbor checks at the end of its section to its caller)
+    file_out = out.get('file')
+    troutes = file_out.routes if file_out is not None and file_out.status == 'ok' and file_out.routes else None  # a statement which defines no route has nothing to send
+    if routes is None and troutes is None:
         return 'refused', ''
+    for origin, rs in (('api', routes), ('file', troutes)):
+        if rs is None:
+            continue
+        v, d = sendable_as_written(rig, kind, text, rs)
+        if v != 'ok':
+            return v, f'{origin}: {d}'
+    return 'ok', ''
+
+
+# RFC 4271 4.3 / 5.1, RFC 1997, RFC 4456, RFC 4360, RFC 8092: the value lengths of the attributes the route grammar
+# can produce (code -> predicate on the length)
+ATTR_LENGTH_RULES: dict[int, Any] = {
+    1: lambda n: n == 1, 3: lambda n: n == 4, 4: lambda n: n == 4, 5: lambda n: n == 4, 6: lambda n: n == 0, 7: lambda n: n in (6, 8),
+    8: lambda n: n > 0 and n % 4 == 0, 9: lambda n: n == 4, 10: lambda n: n > 0 and n % 4 == 0, 16: lambda n: n > 0 and n % 8 == 0, 32: lambda n: n > 0 and n % 12 == 0,
+}
+_PFX_TOKEN = re.compile(r'^[0-9a-fA-F:.]+/\d+$')
+
+
+def written_prefixes(text: str) -> set | None:
+    """The prefixes the text names (None when the text multiplies them: `split`)."""
+    import ipaddress
+
+    toks = text.split(' ')
+    if 'split' in toks:
+        return None
+    out = set()
+    for t in toks:
+        if _PFX_TOKEN.match(t):
+            try:
+                out.add(ipaddress.ip_network(t, strict=False))
+            except ValueError:
+                pass
+    return out
+
+
+def sendable_as_written(rig: fr.Rig, kind: str, text: str, routes: list) -> tuple[str, str]:
+    """An accepted definition: can be rendered, names the prefixes the text names (in their own family), encodes on
+    every session shape into well-formed UPDATEs whose attribute values have a length their type allows."""
+    import ipaddress
+
+    for r in routes:
+        try:
+            str(r.nlri), str(r.attributes), r.extensive()
+        except Exception as e:  # noqa: BLE001
+            return 'render-raises', fr._exc(e)
+    if kind in ('route', 'attributes', 'v4', 'v6'):
+        want = written_prefixes(text)
+        if want:
+            for r in routes:
+                cidr = getattr(r.nlri, 'cidr', None)
+                if cidr is None:
+                    continue
+                try:
+                    got = ipaddress.ip_network(cidr.prefix(), strict=False)
+                except Exception as e:  # noqa: BLE001
+                    return 'prefix-not-as-written', f'{r.nlri}: {fr._exc(e)}'
+                if got not in want or (got.version == 4) != (int(r.nlri.afi) == 1):
+                    return 'prefix-not-as-written', f'the text names {sorted(str(w) for w in want)}, the route is {r.nlri} (afi {int(r.nlri.afi)})'
     for sh in rig.shapes:
         try:
             msgs = rig.encode(sh, routes)
@@ -681,9 +763,13 @@ def junk_outcome(rig: fr.Rig, kind: str, text: str) -> tuple[str, str]:
             return 'encode-raises', f'{sh.name}: {fr._exc(e)}'
         for m in msgs:
             try:
-                fr.split_update(m[19:])
+                _, attrs, _ = fr.split_update(m[19:])
             except Exception as e:  # noqa: BLE001 — not a well-formed UPDATE by the RFC 4271 layout
                 return 'sent-malformed', f'{sh.name}: {fr._exc(e)}'
+            for _flag, code, v in attrs:
+                rule = ATTR_LENGTH_RULES.get(code)
+                if rule is not None and not rule(len(v)):
+                    return 'sent-malformed', f'{sh.name}: attribute {code} sent with a value of {len(v)} octets'
             try:
                 rig.decode(sh, m)
             except Exception as e:  # noqa: BLE001 — the decoder's business (C02 / C03), noted
